@@ -24,7 +24,7 @@ S = Suite(
     what="save_footprints_to_netcdf -> load_footprints_from_netcdf on synthetic and "
          "solver-produced multi-tower, multi-step result sets",
     bound="towers 1..4 x steps 1..4 x {2-D, 3-D (2..4 levels)} x grids 3..9 cells per axis "
-          "(nx != ny) x {ascending, descending, rotated output heights (3-D)} x {float64, float32, mixed (first result float32, later ones float64) fields} x {str, int timestamps} x {ustar, z0, both}; "
+          "(nx != ny) x {ascending, descending, rotated output heights (3-D)} x {float64, float32, mixed (first result float32, later ones float64) fields} x {str, int, absent, repeated (non-distinct) timestamps} x wind directions in [-90, 450) incl. 360, negative, -0.0 x {ustar, z0, both}; "
           "values: normal*10^k, negatives, +-0.0, denormals, +-1e300, float max/min; NaN/inf "
           "fields, duplicate timestamps and result orders other than config.towers not examined",
     rule="bit equality (uint64 view of float64) of every slice; exact equality of coordinates, "
@@ -70,7 +70,11 @@ def _config(n_towers, n_time, nx, ny, forcing, tstype, rs):
                "z_m": 2.0 + 1.5 * k + float(rs.uniform(0, 0.1))} for k in range(n_towers)]
     met = {"mol": [float(x) for x in rs.uniform(-500, 500, n_time)],
            "wind_speed": [float(x) for x in rs.uniform(1, 9, n_time)],
-           "wind_dir": [float(x) for x in rs.uniform(0, 360, n_time)]}
+           # directions as they are logged: also north as 360, negative and unwrapped values, negative zero
+           "wind_dir": [float(x) for x in rs.uniform(-90, 450, n_time)]}
+    for k_, special in enumerate((360.0, -15.0, 372.5, -0.0)):
+        if rs.uniform() < 0.35 and n_time > 0:
+            met["wind_dir"][(k_ * 7) % n_time] = special
     if forcing in ("ustar", "both"):
         met["ustar"] = [float(x) for x in rs.uniform(0.1, 0.9, n_time)]
     if forcing in ("z0", "both"):
@@ -79,6 +83,10 @@ def _config(n_towers, n_time, nx, ny, forcing, tstype, rs):
         met["timestamps"] = ["2024-06-%02dT%02d:30" % (i + 1, 3 * i) for i in range(n_time)]
     elif tstype == "int":
         met["timestamps"] = [10 + 3 * i for i in range(n_time)]
+    elif tstype == "dup":
+        # labels need not be distinct (date-only labels, local times across a clock change): steps are told apart by
+        # their position on the time axis
+        met["timestamps"] = ["2024-10-27T02:%02d" % (30 * ((i // 2) % 2)) for i in range(n_time)]
     cfg = parse_config_dict({
         "domain": {"nx": nx, "ny": ny, "xmax": 37.0 * nx / 3.0, "ymax": 11.0 * ny / 7.0, "nz": 4,
                    "ref_lat": 50.0, "ref_lon": 11.0},
@@ -146,6 +154,8 @@ def _check(results, cfg, tag):
                                        "(%d cells differ; shape %r vs %r)"
                                        % (tag, var, t, ti, nbad, a.shape, o.shape),
                                        key="%s-not-bit-identical" % var)
+                    if [str(x) for x in labels].count(str(labels[t])) > 1:
+                        continue          # a repeated label does not select one step; position decides (checked above)
                     sel = ds[var].sel(tower=name, time=labels[t])
                     want_dims = ("z", "y", "x") if is3d else ("y", "x")
                     if tuple(sel.dims) != want_dims or not _bits_equal(sel.values, orig):
@@ -178,7 +188,10 @@ def _check(results, cfg, tag):
                         return Verdict(False, "%s %s was not given at step %d but the file holds %r"
                                        % (tag, var, t, ds[var].values[t]), key="%s-invented" % var)
                     continue
-                if var not in ds or float(ds[var].sel(time=labels[t]).values) != float(val):
+                dup = [str(x) for x in labels].count(str(labels[t])) > 1
+                got = None if var not in ds else (float(ds[var].values[t]) if dup else float(ds[var].sel(time=labels[t]).values))
+                # bit-for-bit: -0.0 and 360.0 are values like any other
+                if got is None or np.float64(got).tobytes() != np.float64(val).tobytes() or float(ds[var].values[t]) != float(val):
                     return Verdict(False, "%s %s[time=%r] = %r, given %r"
                                    % (tag, var, labels[t],
                                       ds[var].values[t] if var in ds else "<absent>", val),
@@ -285,7 +298,7 @@ def generate(tier, rng):
             ny = rng.choice([v for v in range(3, 10) if v != nx])
             if tier == "quick":
                 forcing = ("ustar", "z0", "both")[(k + rep) % 3]
-                tstype = ("str", "int", "none")[(k // 3 + rep) % 3]
+                tstype = ("str", "int", "none", "dup")[(k // 3 + rep) % 4]
                 dtype = "float32" if k % 8 == 5 else ("mixed" if k % 8 == 2 else "float64")
             else:
                 forcing = ("ustar", "z0", "both")[(k + rep) % 3]
